@@ -325,6 +325,9 @@ def run(ctx):
     # request is not overwritten while the peer's request is answered
     from .c01 import dh_writers
     dh_writers(ctx, 'K4')
+    # ... and the KEYMAT slices are what the kernel gets: the algorithm structure carries the whole key with its length in bits
+    from .c14 import check_algo
+    check_algo(ctx, 'K4')
 
     # ---------------------------------------------------------------- K5
     check_tables(ctx)
@@ -434,7 +437,7 @@ def check_tables(ctx):
                       detail={'found': have.get(k)})
 
 
-def check_primes(ctx):
+def check_primes(ctx, r6='K6', r7='K7'):
     prog = ctx.prog
     modp = prog.cls('crypto.MODPDH')
     d = modp.lookup_attr('_group_dict')
@@ -442,64 +445,64 @@ def check_primes(ctx):
     have = {}
     for k, v in zip(d.keys, d.values):
         have[int(prog.const_eval(k, modp.module, modp))] = prog.const_eval(v, modp.module, modp)
-    ctx.check(sorted(have) == sorted(MODP_C), 'K6', 'MODP groups offered are 14-18', key=('K6', 'groups'), detail={'found': sorted(have)})
+    ctx.check(sorted(have) == sorted(MODP_C), r6, 'MODP groups offered are 14-18', key=(r6, 'groups'), detail={'found': sorted(have)})
     pi = machin_pi(8192 + 8)
     for gid, (bits, c) in MODP_C.items():
         p = (1 << bits) - (1 << (bits - 64)) - 1 + (1 << 64) * ((pi >> (8192 + 8 - (bits - 130))) + c)
         lit = have.get(gid)
         ok = isinstance(lit, str) and len(lit) == bits // 4 and int(lit, 16) == p
-        ctx.check(ok, 'K6', 'group %d literal equals the RFC 3526 prime 2^%d - 2^%d - 1 + 2^64*(floor(2^%d pi) + %d)' % (
-            gid, bits, bits - 64, bits - 130, c), key=('K6', 'prime', gid), site='crypto.py:%s' % d.lineno)
+        ctx.check(ok, r6, 'group %d literal equals the RFC 3526 prime 2^%d - 2^%d - 1 + 2^64*(floor(2^%d pi) + %d)' % (
+            gid, bits, bits - 64, bits - 130, c), key=(r6, 'prime', gid), site='crypto.py:%s' % d.lineno)
     mi = ctx.func('crypto.MODPDH.__init__')
     M = ctx.sval(mi)
     g = mi.call_params()[0]
     site = ctx.site(mi, mi.node)
     lit = 'self._group_dict[%s]' % g
     klen = M.final('self.key_len')
-    common.expect_term(ctx, 'K6', M, klen, 'len(%s) // 2' % lit, 'the public value width is the octet length of the modulus literal',
-                       ('K6', 'modulus-width'), site)
+    common.expect_term(ctx, r6, M, klen, 'len(%s) // 2' % lit, 'the public value width is the octet length of the modulus literal',
+                       (r6, 'modulus-width'), site)
     pn = M.final('self._pn')
-    common.expect_term(ctx, 'K6', M, pn, 'dh.DHParameterNumbers(int(%s, 16), 2)' % lit, 'the modulus is that literal, generator 2',
-                       ('K6', 'generator'), site)
+    common.expect_term(ctx, r6, M, pn, 'dh.DHParameterNumbers(int(%s, 16), 2)' % lit, 'the modulus is that literal, generator 2',
+                       (r6, 'generator'), site)
     priv = M.final('self._private_key')
     ok = priv is not None and pn is not None and tq.match(M.expr('_.parameters(_).generate_private_key()'), priv) is not None \
         and tq.contains(priv, pn)
-    ctx.check(ok, 'K6', 'the private key is generated for those parameters', key=('K6', 'private'), site=site,
+    ctx.check(ok, r6, 'the private key is generated for those parameters', key=(r6, 'private'), site=site,
               detail={'found': tq.text(priv, 300) if priv else None})
     pub = M.final('self.public_key')
     ok = pub is not None and priv is not None and klen is not None
     if ok:
         env = dict(M.entry_env, PRIV=priv, KLEN=klen)
         ok = same(pub, M.expr("PRIV.public_key().public_numbers().y.to_bytes(KLEN, 'big')", env))
-    ctx.check(ok, 'K7', 'MODP public value = y of that key as a fixed-width big-endian integer', key=('K7', 'modp-public'), site=site,
+    ctx.check(ok, r7, 'MODP public value = y of that key as a fixed-width big-endian integer', key=(r7, 'modp-public'), site=site,
               detail={'found': tq.text(pub, 400) if pub else None})
     cs = ctx.func('crypto.MODPDH.compute_secret')
     CS = ctx.sval(cs)
     pk = cs.call_params()[0]
-    common.expect_term(ctx, 'K7', CS, CS.final('self.shared_secret'),
+    common.expect_term(ctx, r7, CS, CS.final('self.shared_secret'),
                        "self._private_key.exchange(dh.DHPublicNumbers(int.from_bytes(%s, 'big'), self._pn).public_key(_))" % pk,
-                       'MODP shared secret = exchange with the peer value read big-endian in the same group', ('K7', 'modp-secret'),
+                       'MODP shared secret = exchange with the peer value read big-endian in the same group', (r7, 'modp-secret'),
                        ctx.site(cs, cs.node))
 
 
-def check_ecdh(ctx):
+def check_ecdh(ctx, r7='K7'):
     prog = ctx.prog
     ec = prog.cls('crypto.ECDH')
     d = ec.lookup_attr('_ec_groups')
     ctx.require(isinstance(d, ast.Dict), 'anchor vanished: ECDH._ec_groups')
     have = {int(prog.const_eval(k, ec.module, ec)): src(v) for k, v in zip(d.keys, d.values)}
-    ctx.check(have == {19: 'ec.SECP256R1()', 20: 'ec.SECP384R1()', 21: 'ec.SECP521R1()'}, 'K7',
-              'groups 19/20/21 are the NIST P-256/P-384/P-521 curves (RFC 5903)', key=('K7', 'curves'), detail={'found': have})
+    ctx.check(have == {19: 'ec.SECP256R1()', 20: 'ec.SECP384R1()', 21: 'ec.SECP521R1()'}, r7,
+              'groups 19/20/21 are the NIST P-256/P-384/P-521 curves (RFC 5903)', key=(r7, 'curves'), detail={'found': have})
     ei = ctx.func('crypto.ECDH.__init__')
     E = ctx.sval(ei)
     g = ei.call_params()[0]
     site = ctx.site(ei, ei.node)
     priv = E.final('self._private_key')
-    common.expect_term(ctx, 'K7', E, priv, 'ec.generate_private_key(self._ec_groups[%s], backend=_)' % g,
-                       'the private key is generated on the curve of the group', ('K7', 'ec-key'), site)
+    common.expect_term(ctx, r7, E, priv, 'ec.generate_private_key(self._ec_groups[%s], backend=_)' % g,
+                       'the private key is generated on the curve of the group', (r7, 'ec-key'), site)
     klen = E.final('self.key_len')
     ok = klen is not None and priv is not None and strip_ids(klen) == ('bin', '//', ('add', (('attr', strip_ids(priv), 'key_size'), const(7))), const(8))
-    ctx.check(ok, 'K7', 'coordinate width = ceil(curve bits / 8)', key=('K7', 'ec-width'), site=site,
+    ctx.check(ok, r7, 'coordinate width = ceil(curve bits / 8)', key=(r7, 'ec-width'), site=site,
               detail={'found': tq.text(klen) if klen else None})
     pub = E.final('self.public_key')
     ok = pub is not None and priv is not None and klen is not None
@@ -507,15 +510,15 @@ def check_ecdh(ctx):
         env = dict(E.entry_env, PRIV=priv, KLEN=klen)
         want = E.expr("PRIV.public_key().public_numbers().x.to_bytes(KLEN, 'big') + PRIV.public_key().public_numbers().y.to_bytes(KLEN, 'big')", env)
         ok = same(pub, want)
-    ctx.check(ok, 'K7', 'ECDH public value = x | y of that key, each fixed-width big-endian', key=('K7', 'ec-public'), site=site,
+    ctx.check(ok, r7, 'ECDH public value = x | y of that key, each fixed-width big-endian', key=(r7, 'ec-public'), site=site,
               detail={'found': tq.text(pub, 500) if pub else None})
     cs = ctx.func('crypto.ECDH.compute_secret')
     CS = ctx.sval(cs)
     pk = cs.call_params()[0]
-    common.expect_term(ctx, 'K7', CS, CS.final('self.shared_secret'),
+    common.expect_term(ctx, r7, CS, CS.final('self.shared_secret'),
                        "self._private_key.exchange(ec.ECDH(), ec.EllipticCurvePublicNumbers(int.from_bytes(%s[:self.key_len], 'big'), "
                        "int.from_bytes(%s[self.key_len:], 'big'), self._ec_groups[self.group]).public_key(_))" % (pk, pk),
-                       'the peer value is split at the coordinate width into (x, y) on the same curve', ('K7', 'ec-secret'),
+                       'the peer value is split at the coordinate width into (x, y) on the same curve', (r7, 'ec-secret'),
                        ctx.site(cs, cs.node))
     fg = ctx.func('crypto.DiffieHellman.from_group')
     FG = ctx.sval(fg)
@@ -523,8 +526,8 @@ def check_ecdh(ctx):
     rets = [(pc, strip_ids(t)) for pc, t, _ in FG.returns]
     modp = [r for r in rets if r[1] == strip_ids(FG.expr('MODPDH(%s)' % g)) and common.lookup_side(r[0], ('param', g)) == 'hit']
     ecdh = [r for r in rets if r[1] == strip_ids(FG.expr('ECDH(%s)' % g)) and common.lookup_side(r[0], ('param', g)) == 'miss']
-    ctx.check(len(rets) == 2 and len(modp) == 1 and len(ecdh) == 1, 'K7',
-              'from_group: MODP if the group is a MODP group, else ECDH (fallback on KeyError only)', key=('K7', 'from-group'),
+    ctx.check(len(rets) == 2 and len(modp) == 1 and len(ecdh) == 1, r7,
+              'from_group: MODP if the group is a MODP group, else ECDH (fallback on KeyError only)', key=(r7, 'from-group'),
               site=ctx.site(fg, fg.node), detail={'returns': [(tq.text(t), [tq.text(a[0]) for a in pc]) for pc, t in rets]})
 
 
